@@ -92,6 +92,7 @@ func loadBPFModule(prog string) (*LLModule, error) {
 			c.err = err
 			return
 		}
+		mod.precomputeLayouts()
 		c.mod = mod
 	})
 	return c.mod, c.err
